@@ -20,3 +20,12 @@ Proof.
     destruct (lookup part t) as [q|]; [|discriminate]. apply xphase_eqb_eq. assumption.
   - intros ev enclosing Hn. unfold handler_phase. rewrite Hn. reflexivity.
 Qed.
+
+(* when no system listener returns a truthy value, the event reaches every one of them *)
+Theorem delivered_to_all {E} (ls : list (E -> bool)) (e : E) : (forall l, In l ls -> l e = false) -> delivered ls e = List.length ls.
+Proof. induction ls as [|l t IH]; intros H; cbn; [reflexivity|]. rewrite (H l (or_introl eq_refl)). f_equal. apply IH. intros x Hx. apply H. right. exact Hx. Qed.
+(* ... and one that does cuts the others off *)
+Theorem delivered_cut {E} (pre post : list (E -> bool)) (l : E -> bool) (e : E) : (forall x, In x pre -> x e = false) -> l e = true ->
+  delivered (pre ++ l :: post) e = S (List.length pre).
+Proof. induction pre as [|x t IH]; intros H T; cbn; [rewrite T; reflexivity|]. rewrite (H x (or_introl eq_refl)). f_equal. apply IH; [|exact T].
+  intros y Hy. apply H. right. exact Hy. Qed.
